@@ -51,11 +51,11 @@ impl<'a> Iterator for Tokenizer<'a> {
                         self.expr.next()?;
                         Some(Token::Num(Complex::new(
                             0.0,
-                            number.parse::<f64>().unwrap(),
+                            number.parse::<f64>().ok()?,
                         )))
                     } else {
                         Some(Token::Num(Complex::new(
-                            number.parse::<f64>().unwrap(),
+                            number.parse::<f64>().ok()?,
                             0.0,
                         )))
                     }
@@ -66,61 +66,61 @@ impl<'a> Iterator for Tokenizer<'a> {
             Some('⁰') => Some(Token::Superscript(Complex::new(
                 deserialize_superscript_number(&current_char?, &mut self.expr)
                     .parse::<f64>()
-                    .unwrap(),
+                    .ok()?,
                 0.0,
             ))),
             Some('¹') => Some(Token::Superscript(Complex::new(
                 deserialize_superscript_number(&current_char?, &mut self.expr)
                     .parse::<f64>()
-                    .unwrap(),
+                    .ok()?,
                 0.0,
             ))),
             Some('²') => Some(Token::Superscript(Complex::new(
                 deserialize_superscript_number(&current_char?, &mut self.expr)
                     .parse::<f64>()
-                    .unwrap(),
+                    .ok()?,
                 0.0,
             ))),
             Some('³') => Some(Token::Superscript(Complex::new(
                 deserialize_superscript_number(&current_char?, &mut self.expr)
                     .parse::<f64>()
-                    .unwrap(),
+                    .ok()?,
                 0.0,
             ))),
             Some('⁴') => Some(Token::Superscript(Complex::new(
                 deserialize_superscript_number(&current_char?, &mut self.expr)
                     .parse::<f64>()
-                    .unwrap(),
+                    .ok()?,
                 0.0,
             ))),
             Some('⁵') => Some(Token::Superscript(Complex::new(
                 deserialize_superscript_number(&current_char?, &mut self.expr)
                     .parse::<f64>()
-                    .unwrap(),
+                    .ok()?,
                 0.0,
             ))),
             Some('⁶') => Some(Token::Superscript(Complex::new(
                 deserialize_superscript_number(&current_char?, &mut self.expr)
                     .parse::<f64>()
-                    .unwrap(),
+                    .ok()?,
                 0.0,
             ))),
             Some('⁷') => Some(Token::Superscript(Complex::new(
                 deserialize_superscript_number(&current_char?, &mut self.expr)
                     .parse::<f64>()
-                    .unwrap(),
+                    .ok()?,
                 0.0,
             ))),
             Some('⁸') => Some(Token::Superscript(Complex::new(
                 deserialize_superscript_number(&current_char?, &mut self.expr)
                     .parse::<f64>()
-                    .unwrap(),
+                    .ok()?,
                 0.0,
             ))),
             Some('⁹') => Some(Token::Superscript(Complex::new(
                 deserialize_superscript_number(&current_char?, &mut self.expr)
                     .parse::<f64>()
-                    .unwrap(),
+                    .ok()?,
                 0.0,
             ))),
             Some('0'..='9') => {
@@ -136,11 +136,11 @@ impl<'a> Iterator for Tokenizer<'a> {
                     self.expr.next()?;
                     Some(Token::Num(Complex::new(
                         0.0,
-                        number.parse::<f64>().unwrap(),
+                        number.parse::<f64>().ok()?,
                     )))
                 } else {
                     Some(Token::Num(Complex::new(
-                        number.parse::<f64>().unwrap(),
+                        number.parse::<f64>().ok()?,
                         0.0,
                     )))
                 }
